@@ -183,26 +183,26 @@ def shape_values(layout, values, as_option=True):
     raise KeyError(layout)
 
 
-def build_layout(layout, system, rows, momentum=False, spelling="generic", extra=False, alt=0):
+def build_layout(layout, system, rows, momentum=False, spelling="generic", extra=False, alt=0, dtype=numpy.float64):
     """vector array in the given layout holding N_ELEMS rows"""
     assert len(rows) == N_ELEMS
     d = len(system) + 1
     if layout in NP_LAYOUTS:
-        a = np_array(system, rows, momentum, spelling=spelling if spelling == "momentum" else None)
+        a = np_array(system, rows, momentum, spelling=spelling if spelling == "momentum" else None, dtype=dtype)
         return a.reshape(2, 3) if layout == "np2" else a
     if layout in NP_VIEW_LAYOUTS:
         # views sharing memory with a larger live base array (aliasing between result assembly and operand storage)
         if layout == "np1v":
-            base = np_array(system, [r for row in rows for r in (row, tuple(-7.25 for _ in row))], momentum)
+            base = np_array(system, [r for row in rows for r in (row, tuple(-7.25 for _ in row))], momentum, dtype=dtype)
             return base[::2]
         if layout == "np2T":
-            base = np_array(system, rows, momentum).reshape(3, 2)
+            base = np_array(system, rows, momentum, dtype=dtype).reshape(3, 2)
             return base.T
         if layout == "np1s":
-            base = np_array(system, [tuple(3.5 for _ in rows[0])] * 2 + list(rows) + [tuple(1.25 for _ in rows[0])], momentum)
+            base = np_array(system, [tuple(3.5 for _ in rows[0])] * 2 + list(rows) + [tuple(1.25 for _ in rows[0])], momentum, dtype=dtype)
             return base[2:-1]
     ex = {"charge": numpy.array([1, -1, 0, 2, -2, 1]), "tag": numpy.array([0.5, 1.5, 2.5, 3.5, 4.5, 5.5])} if extra else None
-    flat = ak_flat(system, rows, momentum, spelling, ex, alt)
+    flat = ak_flat(system, rows, momentum, spelling, ex, alt, dtype=dtype)
     if layout == "flat":
         return flat
     if layout == "optrec":
